@@ -133,10 +133,72 @@ CHECKS.update({
             "DESIGN.md 3/C20"),
 })
 
+CHECKS.update({
+    "C01": ("generator", "exploration",
+            "runtime monitoring: independent reference interpreter evaluated next to the real compile-and-run pipeline",
+            "Seeded well-typed programs of a Cairo subset are compiled by the real pipeline under three configurations and "
+            "executed in the VM on several argument vectors; the decoded value or the exact panic data is compared with a "
+            "big-integer interpreter of the generator's own AST that never looks at Sierra or CASM. Held = the two agreed on every "
+            "(program, input, configuration) observed.",
+            "Trusted: the reference interpreter (written from the language reference and the corelib's documented panic strings); "
+            "the typed result decoder.",
+            "DESIGN.md 3/C01"),
+    "C03": ("hintfault", "fault_enumeration",
+            "runtime monitoring with fault injection: one hint occurrence answers dishonestly, the run's outcome is classified",
+            "A wrapper around the runner's honest hint processor records every CoreHint occurrence of an honest run and then, one "
+            "faulty run per (occurrence, fault class), pre-writes mutated values into the hint's output cells. Every faulty run "
+            "that still SUCCEEDS must produce the honest run's decoded result. All CoreHint kinds the workloads reach (27 of 28; "
+            "EvalCircuit is a blind spot) are faulted, with generic per-cell faults and coordinated alternative decompositions.",
+            "Trusted: cairo-vm as the verifier of the trace; single-occurrence faults only; syscall/cheatcode/entry-code hints "
+            "excluded.",
+            "DESIGN.md 3/C03"),
+    "C05": ("metamorph", "exploration",
+            "runtime monitoring: metamorphic comparison of executions across optimization configurations",
+            "The same programs (e2e / examples snippets on generated inputs, and the whole corelib test suite) are compiled under "
+            "a lattice of optimization / inlining / const-folding / match-threshold / solver configurations and run; decoded "
+            "results and test verdicts must equal those of the optimizations-disabled build. Hook H2 shows which optimization "
+            "phases actually changed the IR during the run.",
+            "Trusted: the typed result decoder; programs that read their own gas counter are outside the property.",
+            "DESIGN.md 3/C05"),
+    "C06": ("opmatrix", "exploration",
+            "runtime monitoring: big-integer model evaluated next to compiled one-operation programs; exhaustive over 8-bit operands for the listed operations",
+            "499 (type, operation) wrappers are compiled and run on the full boundary cross product plus random operands; add, sub "
+            "and mul on u8 and i8 are run on ALL 65536 operand pairs in the quick tier, every binary operation on u8/i8 in the "
+            "thorough tier. The result (value, or panic vs value) is compared with ordinary integer arithmetic.",
+            "Trusted: the model (integer arithmetic, truncating signed division, mod-P felt arithmetic).",
+            "DESIGN.md 3/C06"),
+    "C07": ("constcheck", "exploration",
+            "runtime monitoring: differential oracle between the compile-time evaluator and the run-time execution of the same expression",
+            "Seeded typed const-evaluable expressions are submitted as const items, as run-time twins with opaque arguments, and "
+            "as literal-inline functions with constant folding on and off; acceptance/rejection and values must agree with what "
+            "the compiled twin computes in the VM.",
+            "Trusted: the run-time execution as the reference; expressions the const evaluator does not support are outside the "
+            "domain.",
+            "DESIGN.md 3/C07"),
+    "C08": ("generator", "exploration",
+            "runtime monitoring: acceptance monitor over generated programs and injected ownership violations, with the IR validator hook",
+            "Every error-free generated program must compile to Sierra, validate, get metadata and CASM under every configuration "
+            "of the lattice, with the lowering validator (hook H2) accepting the IR after every optimization phase (~1.8 million "
+            "validations per quick run); every program with one injected use-after-move / undropped value / double move must be "
+            "rejected.",
+            "Trusted: the generator's ownership tracking (it decides where a moved variable can be re-mentioned).",
+            "DESIGN.md 3/C08"),
+})
+
 PENDING = {
 }
 
 ENGINES = [
+    {"name": "generator", "path": "harness/src/pgen.rs, harness/src/gencheck.rs", "serves_properties": ["C01", "C08"],
+     "kind_free_text": "typed Cairo program generator + independent reference interpreter + ownership-violation injector"},
+    {"name": "hintfault", "path": "harness/src/hintfault.rs", "serves_properties": ["C03"],
+     "kind_free_text": "recording / fault-injecting wrapper around the runner's hint processor"},
+    {"name": "metamorph", "path": "harness/src/metamorph.rs", "serves_properties": ["C05"],
+     "kind_free_text": "configuration lattice comparator"},
+    {"name": "opmatrix", "path": "harness/src/opmatrix.rs", "serves_properties": ["C06"],
+     "kind_free_text": "operator matrix + big-integer model"},
+    {"name": "constcheck", "path": "harness/src/constcheck.rs", "serves_properties": ["C07"],
+     "kind_free_text": "const expression generator + run-time twin comparator"},
     {"name": "formatter", "path": "harness/src/fmtchecks.rs", "serves_properties": ["C11"],
      "kind_free_text": "layout mutators + idempotence / conservation oracle"},
     {"name": "dbscen", "path": "harness/src/dbscen.rs", "serves_properties": ["C12", "C13", "C20"],
